@@ -92,6 +92,17 @@ type Client struct {
 	Steps   []CStep
 	Window  int
 	Late    bool // connects only after a fault (C07 accepts-after) or after Stop
+	// Behaviour: "" conforming; C18 misbehaviours: plaintext garbage silent abandon nocert wrongca
+	Behaviour string
+	Offending bool // must never reach a handler under the server's TLS configuration
+
+	hsDone   bool
+	hsErr    string
+	srvTLS   string // result of Request.StartTLS as seen by the handler ("" ok)
+	srvTLSOK bool
+	plainIn  int // bytes received before the TLS handshake (StartTLS flavour)
+	plainOut int
+	eof      string
 
 	pc         int
 	ep         *simrt.Conn
@@ -124,6 +135,7 @@ type CoreCfg struct {
 	WriteTimeout time.Duration
 	NoRecovery   bool
 	OnClose      int // 0 none, 1 fast, 2 stalls until released
+	TLSMode      int // 0 plain listener, 1 server-auth TLS, 2 client certificate required and verified
 	Port         int
 	Addr         string
 
@@ -147,6 +159,8 @@ type CoreCfg struct {
 // Core is the S-core scenario.
 type Core struct {
 	Cfg  *CoreCfg
+	w    *simrt.World
+	rel  map[string]bool // released stall sites
 	srv  *gldap.Server
 	mux  *gldap.Mux
 	reqs map[int64]*Req
@@ -176,6 +190,7 @@ type Core struct {
 	unknownIDs  int
 	lateOK      bool
 	listenErrs  int
+	mutants     []string
 }
 
 func (c *Core) lean() bool { return c.Cfg.Lean }
@@ -223,6 +238,20 @@ func (c *Core) handler(route int) gldap.HandlerFunc {
 			}
 			simrt.Emit("h-write", connID, id, int64(k), 0, es, nil)
 		}
+		if sc.StartTLS {
+			if sc.StallAfter&1 != 0 {
+				simrt.Park("stall", "t"+strconv.FormatInt(id, 10)+"a", nil)
+			}
+			err := r.StartTLS(serverTLS(1))
+			es := ""
+			if err != nil {
+				es = err.Error()
+			}
+			simrt.Emit("h-starttls", connID, id, 0, 0, es, nil)
+			if sc.StallAfter&2 != 0 {
+				simrt.Park("stall", "t"+strconv.FormatInt(id, 10)+"b", nil)
+			}
+		}
 	}
 }
 
@@ -238,6 +267,8 @@ func (c *Core) onClose(id int) {
 
 func (c *Core) Setup(s *Sim) {
 	cfg := c.Cfg
+	c.w = s.W
+	c.rel = map[string]bool{}
 	c.oncloseRel = map[int]bool{}
 	c.onclose = map[int][]int64{}
 	c.oncloseExit = map[int]int{}
@@ -329,9 +360,13 @@ func (c *Core) Setup(s *Sim) {
 func (c *Core) startRun(s *Sim) {
 	c.runStarted = true
 	srv, addr := c.srv, c.Cfg.Addr
+	var ropts []gldap.Option
+	if c.Cfg.TLSMode > 0 {
+		ropts = append(ropts, gldap.WithTLSConfig(serverTLS(c.Cfg.TLSMode)))
+	}
 	s.W.Go("run", func() {
 		simrt.Emit("run-call", 0, 0, 0, 0, addr, nil)
-		err := srv.Run(addr)
+		err := srv.Run(addr, ropts...)
 		es := ""
 		if err != nil {
 			es = err.Error()
@@ -362,17 +397,34 @@ func (c *Core) invokeStop(s *Sim) {
 // ---- scheduler-side actions ----------------------------------------------------
 
 func (c *Core) Gate(p *simrt.Parked) bool {
-	if p.Kind != "stall" {
-		return true
+	switch p.Kind {
+	case "stall":
+		return c.rel[p.Site]
+	case "task":
+		if strings.HasPrefix(p.Site, "cl") && strings.HasSuffix(p.Site, "-step") {
+			i, _ := strconv.Atoi(p.Site[2 : len(p.Site)-5])
+			if i < len(c.Cfg.Clients) {
+				return c.stepEnabled(c.Cfg.Clients[i])
+			}
+		}
 	}
-	if strings.HasPrefix(p.Site, "onclose") {
-		id, _ := strconv.Atoi(p.Site[7:])
-		return c.oncloseRel[id]
+	return true
+}
+
+// stepEnabled says whether the client's next scripted step may happen now.
+func (c *Core) stepEnabled(cl *Client) bool {
+	if cl.pc >= len(cl.Steps) || cl.ended != "" {
+		return cl.Flavour != 0 // a task past its script just runs to its end
 	}
-	if strings.HasPrefix(p.Site, "m") {
-		id, _ := strconv.ParseInt(p.Site[1:], 10, 64)
-		if q := c.reqs[id]; q != nil {
-			return q.released
+	if c.stopCalls > 0 && c.Cfg.PassiveEnd {
+		return false
+	}
+	st := cl.Steps[cl.pc]
+	if st.WaitAll {
+		for _, q := range cl.reqs {
+			if !c.answered(q) {
+				return false
+			}
 		}
 	}
 	return true
@@ -381,6 +433,9 @@ func (c *Core) Gate(p *simrt.Parked) bool {
 func (cl *Client) name() string { return "cl" + strconv.Itoa(cl.Idx) }
 
 func (c *Core) answered(q *Req) bool {
+	if c.Cfg.Lean && c.client(q.Client).Flavour != 0 {
+		return true // race build: the scheduler does not read what task clients received
+	}
 	if !q.Rec.Supported() || q.BehindUnbind || q.Rec.Op == "unbind" {
 		return true
 	}
@@ -408,7 +463,7 @@ func (c *Core) Actions(s *Sim, acts []Action) []Action {
 		if cl.ep == nil {
 			continue
 		}
-		if cl.paused && (c.drain || true) {
+		if cl.paused {
 			w := s.WHarness
 			if !c.drain {
 				w = 1
@@ -419,46 +474,27 @@ func (c *Core) Actions(s *Sim, acts []Action) []Action {
 				c.OnDelivered(s, cl.ep)
 			}})
 		}
-		if cl.pc < len(cl.Steps) && cl.ended == "" && !(stopped && cfg.PassiveEnd) {
-			st := cl.Steps[cl.pc]
-			ok := true
-			if st.WaitAll {
-				for _, q := range cl.reqs {
-					if !c.answered(q) {
-						ok = false
-						break
-					}
-				}
-			}
-			if ok {
-				acts = append(acts, Action{Class: clsHarness, Key: "step " + cl.name(), Weight: s.WHarness, Do: func() { c.clientStep(s, cl) }})
-			}
+		if cl.Flavour == 0 && cl.pc < len(cl.Steps) && cl.ended == "" && c.stepEnabled(cl) {
+			acts = append(acts, Action{Class: clsHarness, Key: "step " + cl.name(), Weight: s.WHarness, Do: func() { c.clientStep(s, cl) }})
 		}
 	}
 	// release stalled handlers / OnClose callbacks
 	if !c.held {
 		s.parkedBuf = s.W.Snapshot(s.parkedBuf)
 		for _, p := range s.parkedBuf {
-			if p.Kind != "stall" || c.Gate(p) {
+			if p.Kind != "stall" || c.rel[p.Site] {
 				continue
 			}
 			site := p.Site
-			if strings.HasPrefix(site, "onclose") {
-				id, _ := strconv.Atoi(site[7:])
-				acts = append(acts, Action{Class: clsHarness, Key: "release " + site, Weight: s.WHarness, Do: func() {
-					s.Logf("release %s", site)
-					c.oncloseRel[id] = true
-				}})
-				continue
-			}
-			id, _ := strconv.ParseInt(site[1:], 10, 64)
-			q := c.reqs[id]
-			if q == nil || (q.Script.Stall == 2 && !c.drain) {
-				continue
+			if site[0] == 'm' {
+				id, _ := strconv.ParseInt(site[1:], 10, 64)
+				if q := c.reqs[id]; q != nil && q.Script.Stall == 2 && !c.drain {
+					continue
+				}
 			}
 			acts = append(acts, Action{Class: clsHarness, Key: "release " + site, Weight: s.WHarness, Do: func() {
-				s.Logf("release handler %s", site)
-				q.released = true
+				s.Logf("release %s", site)
+				c.rel[site] = true
 			}})
 		}
 	}
@@ -485,7 +521,7 @@ func (c *Core) Actions(s *Sim, acts []Action) []Action {
 
 func (c *Core) connect(s *Sim, cl *Client) {
 	cl.dialed = true
-	ep := s.W.Dial(c.Cfg.Port, true)
+	ep := s.W.Dial(c.Cfg.Port, cl.Flavour == 0)
 	if ep == nil {
 		cl.refused = true
 		s.Logf("%s: connection refused", cl.name())
@@ -499,9 +535,20 @@ func (c *Core) connect(s *Sim, cl *Client) {
 	}
 	s.Logf("%s connects as c%d", cl.name(), ep.ID)
 	s.W.Emit("connected", ep.ID, 0, int64(cl.Idx), 0, "", nil)
+	if cl.Flavour != 0 {
+		s.W.Go(cl.name(), func() { c.runTaskClient(cl) })
+	}
 }
 
 func (c *Core) clientStep(s *Sim, cl *Client) {
+	st := cl.Steps[cl.pc]
+	c.noteStep(s, cl, true)
+	_ = st
+}
+
+// noteStep performs (passive clients) or records (task clients) the client's
+// next scripted step.
+func (c *Core) noteStep(s *Sim, cl *Client, perform bool) {
 	st := cl.Steps[cl.pc]
 	cl.pc++
 	switch st.Kind {
@@ -510,7 +557,12 @@ func (c *Core) clientStep(s *Sim, cl *Client) {
 		if len(st.Reqs) > 1 {
 			s.Fault("F2-pipelined-segment")
 		}
-		cl.ep.SendRaw(st.Data)
+		if perform {
+			cl.ep.SendRaw(st.Data)
+		}
+		if !cl.hsDone {
+			cl.plainOut += len(st.Data)
+		}
 		for _, q := range st.Reqs {
 			q.sent = true
 			q.sentStep = s.Steps
@@ -526,18 +578,24 @@ func (c *Core) clientStep(s *Sim, cl *Client) {
 		s.Logf("%s closes", cl.name())
 		s.Fault("F4-client-close")
 		cl.ended, cl.endStep = "close", s.Steps
-		cl.ep.PassiveClose()
+		if perform {
+			cl.ep.PassiveClose()
+		}
 	case stHalfClose:
 		s.Logf("%s half-closes", cl.name())
 		s.Fault("F4-client-halfclose")
 		cl.ended, cl.endStep = "halfclose", s.Steps
-		cl.ep.CloseWrite()
+		if perform {
+			cl.ep.CloseWrite()
+		}
 	case stReset:
 		s.Logf("%s resets", cl.name())
 		s.Fault("F4-client-reset")
 		cl.ended, cl.endStep = "reset", s.Steps
 		cl.disturbed = true
-		cl.ep.Reset()
+		if perform {
+			cl.ep.Reset()
+		}
 	case stPause:
 		s.Logf("%s stops reading", cl.name())
 		s.Fault("F5-client-stops-reading")
@@ -617,6 +675,11 @@ func (c *Core) OnDelivered(s *Sim, ep *simrt.Conn) {
 	if len(b) == 0 {
 		return
 	}
+	c.feed(s, cl, b)
+}
+
+// feed parses what a client received into whole LDAPMessages.
+func (c *Core) feed(s *Sim, cl *Client, b []byte) {
 	cl.rx = append(cl.rx, b...)
 	for cl.rxErr == "" {
 		n, err := FrameLen(cl.rx)
@@ -681,6 +744,36 @@ func (c *Core) OnEvent(s *Sim, e *simrt.Event) {
 				}
 			}
 		}
+	case "c-step":
+		cl := c.Cfg.Clients[e.A]
+		if int(e.B) == cl.pc {
+			c.noteStep(s, cl, false)
+		}
+	case "c-data":
+		cl := c.Cfg.Clients[e.A]
+		b, _ := e.P.([]byte)
+		if e.B == 1 || !cl.hsDone {
+			cl.plainIn += len(b)
+		}
+		if !c.Cfg.Lean {
+			c.feed(s, cl, b)
+		}
+	case "c-eof":
+		c.Cfg.Clients[e.A].eof = e.S
+	case "c-hs":
+		cl := c.Cfg.Clients[e.A]
+		cl.hsDone, cl.hsErr = e.S == "", e.S
+		if e.S != "" {
+			cl.hsDone = false
+			s.Probe("tls-client-handshake-failed")
+		} else {
+			s.Probe("tls-client-handshake-completed")
+		}
+	case "h-starttls":
+		if q := c.reqs[e.Msg]; q != nil {
+			cl := c.client(q.Client)
+			cl.srvTLS, cl.srvTLSOK = e.S, e.S == ""
+		}
 	case "run-ret":
 		c.runRet, c.runErr = true, e.S
 		c.checkBoth(s)
@@ -723,12 +816,7 @@ func (c *Core) Quiescent(s *Sim) bool {
 
 func (c *Core) Teardown(s *Sim) {
 	// let everything go so that goroutines can exit before the bubble ends
-	for _, q := range c.reqs {
-		q.released = true
-	}
-	for id := 0; id < 4096; id++ {
-		c.oncloseRel[id] = true
-	}
+	c.drain = true
 	for _, cl := range c.Cfg.Clients {
 		cl.paused = false
 		if cl.ep != nil && !cl.ep.IsReset() {
